@@ -90,6 +90,32 @@ def refMem (c : Cfg) (s : Schema) (t : Target) : Nat → Name → J → Bool
             (f.name, c.optionalInput && !f.ty.isNonNull, conf (refMem c s t n) f.ty)) kvs
         | _ => false
 
+/-- What a resolver RETURNS for the named type (the resolvers file's local aliases): an object type's record without
+    the `__typename` key at the top (`Omit<…, "__typename">`; nested objects are full `Ref_ResolverOutput` values),
+    interfaces / unions the union over their possible object types, leaves as `Ref_ResolverOutput`. -/
+def refResolverOut (c : Cfg) (s : Schema) : Nat → Name → J → Bool
+  | 0, _, _ => false
+  | n + 1, name, v =>
+    match s.typeDef? name with
+    | none => false
+    | some td =>
+      match td.kind with
+      | .object =>
+        match v with
+        | .obj kvs =>
+          recordMem (td.fields.map fun f => (f.name, false, conf (refMem c s .resolverOutput n) f.ty)) kvs
+        | _ => false
+      | .interface | .union => (s.possibleTypes name).any fun o => refResolverOut c s n o v
+      | _ => refMem c s .resolverOutput (n + 1) name v
+
+/-- `Ref_ResolverInput(args f)`: the record of a field's arguments as the resolver receives it — every argument is a
+    REQUIRED key whose value conforms wrapper-exactly to the argument's type over `Ref_ResolverInput` (a nullable
+    argument admits `null`), regardless of default values -/
+def refArgs (c : Cfg) (s : Schema) (fuel : Nat) (args : List InputValueDef) (v : J) : Bool :=
+  match v with
+  | .obj kvs => recordMem (args.map fun a => (a.name, false, conf (refMem c s .resolverInput fuel) a.ty)) kvs
+  | _ => false
+
 def Ref (c : Cfg) (s : Schema) (t : Target) (name : Name) (v : J) : Prop := ∃ n, refMem c s t n name v = true
 
 end NitroVerif.RefTypes
